@@ -63,6 +63,10 @@ fn main() {
             std::process::exit(2);
         }
     }
+    let only = arg(&args, "--only", "");
+    if !only.is_empty() {
+        out.restrict(&only);
+    }
     out.write(&dir, &name).unwrap();
     println!("{} lines, {} oracle failures", out.ops.len(), out.oracle.len());
 }
@@ -98,8 +102,10 @@ fn replay(out: &mut Out, path: &str) {
             gac::replay_line(out, line);
         } else if w.starts_with("lp.") {
             lp::replay_line(out, line);
-        } else if w.starts_with("fl.") {
+        } else if w.starts_with("fl.") || w == "#flapi" {
             float::replay_line(out, line);
+        } else if w == "#det" {
+            determ::replay_line(out, line);
         } else if w.starts_with("lw.") {
             lower::replay_line(out, line);
         } else if eng && w == "limit" {
